@@ -133,13 +133,27 @@ func doLocalSymbolize(prof *profile.Profile, fast, force bool, obj plugin.ObjToo
 		}
 	}
 
+	// New functions get ids above the existing ones, which need not be
+	// numbered densely.
+	var maxFunctionID uint64
+	usedFunctionIDs := make(map[uint64]bool, len(prof.Function))
+	for _, f := range prof.Function {
+		usedFunctionIDs[f.ID] = true
+		if f.ID > maxFunctionID {
+			maxFunctionID = f.ID
+		}
+	}
 	functions := map[profile.Function]*profile.Function{}
 	addFunction := func(f *profile.Function) *profile.Function {
 		if fp := functions[*f]; fp != nil {
 			return fp
 		}
 		functions[*f] = f
-		f.ID = uint64(len(prof.Function)) + 1
+		// Skip 0 (reserved) and ids in use, should the counter wrap around.
+		for maxFunctionID++; maxFunctionID == 0 || usedFunctionIDs[maxFunctionID]; maxFunctionID++ {
+		}
+		usedFunctionIDs[maxFunctionID] = true
+		f.ID = maxFunctionID
 		prof.Function = append(prof.Function, f)
 		return f
 	}
